@@ -15,6 +15,9 @@ use oal_syntax::atom;
 use oal_syntax::lexer as lex;
 use oal_syntax::parser as syn;
 use sha2::{Digest, Sha256};
+#[cfg(feature = "verif")]
+use oal_model::verif::ChoiceMap as HashMap;
+#[cfg(not(feature = "verif"))]
 use std::collections::HashMap;
 use std::rc::Rc;
 
